@@ -32,7 +32,7 @@ CHECKS = {
             "Trusts the byte-vector model, the bitwise CRC-32C in refcodec and SimDisk's File semantics; device fault-free apart from short transfers.",
             SIM + "seeded operation histories over a simulated device with short-transfer schedules vs. reference model", "DESIGN.md §5 C11"),
     "C15": (True, "fault_enumeration",
-            "Per sampled writer program the crash space is enumerated completely: every prefix of the recorded device write log x 19+ torn-write cut positions, drop-without-finalize after every call prefix (incl. abandoned sub-writers), failing XML transformer, hard device error at every operation inside finalize; each resulting image must be rejected by the reader or behave exactly like the completed file. Programs are sampled by seed.",
+            "Per sampled writer program the crash space is enumerated completely: every prefix of the recorded device write log x 19+ torn-write cut positions, drop-without-finalize after every call prefix (incl. abandoned sub-writers), failing XML transformer, hard device error (and EINTR on seek/flush) at every operation inside finalize, a device pre-filled with an older complete file; each resulting image must be rejected by the reader or behave exactly like the completed file and pass refcodec's fsck. Programs are sampled by seed.",
             "Assumes writes reach the device in issue order and a torn write leaves a byte prefix.",
             SIM + "crash-point enumeration over the device write log (prefixes x torn cuts) plus drop/transformer/device-error points, reader as judge", "DESIGN.md §5 C15"),
     "C16": (True, "fault_enumeration",
@@ -40,7 +40,7 @@ CHECKS = {
             "Programs stop at the first failed call; EINTR only on transfers; errors in Drop are swallowed by design.",
             SIM + "exhaustive single-fault injection over the recorded device-operation sequence, plus schedule-independence under seeded short transfers", "DESIGN.md §5 C16"),
     "C03": (True, "exploration",
-            "Seeded scenes encoded by an independent, specification-driven producer (refcodec) under a seeded layout schedule (ragged per-stream packetisation with values straddling packets and empty streams, index/ignored packets before/between/after data packets, shuffled and padded sections, omitted optional type attributes, XML lexical variants); the producer's output must pass refcodec's own fsck and decode to the scene; the crate's reader on a simulated device with seeded short reads must return exactly the encoded values, counts and metadata.",
+            "Seeded scenes encoded by an independent, specification-driven producer (refcodec) under a seeded layout schedule (ragged per-stream packetisation with values straddling packets and empty streams, index/ignored packets before/between/after data packets, shuffled and padded sections, omitted optional type attributes, XML lexical variants); the producer's output must pass refcodec's own fsck and decode to the scene; the crate's reader on a simulated device with seeded short reads must return exactly the encoded values, counts and metadata. Run indices 0..19 read the bundled E57RefImpl / libE57Format / las2e57 files with the crate and with refcodec and compare.",
             "Legal layout space is conservative (choices supported by the format description and by libE57Format-written files). Known finding F13b (all-constant prototype) listed.",
             SIM + "foreign-producer packetisation/interleaving schedule x device chunk schedules vs. scene model", "DESIGN.md §5 C03"),
     "C05": (True, "exploration",
@@ -48,11 +48,11 @@ CHECKS = {
             "Trusts the reference view; normalised values compared by presence only (C13 is n/a); direction-only conversions accept either documented reading.",
             SIM + "producer layout schedule x 2^6 option configurations x page damage vs. reference view and raw iterator", "DESIGN.md §5 C05"),
     "C07": (True, "fault_enumeration",
-            "Every single-bit flip of every page of small files is enumerated (4 files quick, 24 thorough) and judged with all read entry points; sampled 1-3 bit flips, bursts <= 32 bits, overwrites, checksum-only and header-field damage are applied before open or between two operations of a reader history; every operation must fail or equal the pristine result, validate_crc fails iff a page is altered; the whole batch is re-executed by a second harness build with the crc32c feature and per-run digests must agree.",
+            "Every single-bit flip of every page of small files is enumerated (4 files quick, 24 thorough) and judged with all read entry points; sampled 1-3 bit flips, bursts <= 32 bits, overwrites, checksum-only and header-field damage are applied before open, between two operations of a reader history, or at a device-operation instant inside a call; hand-made files with page sizes other than 1024 go through the static validate_crc/raw_xml; every operation must fail or equal the pristine result, validate_crc fails iff a page is altered; the whole batch is re-executed by a second harness build with the crc32c feature and per-run digests must agree.",
             "Altered = independent bitwise CRC-32C of the payload differs from the stored checksum; header()/raw_xml on a damaged page 0 not judged.",
             SIM + "stored-byte fault enumeration (all single-bit flips) and seeded alterations at seeded instants x reader histories x both CRC back ends", "DESIGN.md §5 C07"),
     "C08": (True, "exploration",
-            "Structure-aware corruption plans (header, XML numbers/attributes/structure incl. NaN/inf/extremes/DTD, section and packet headers, stream lengths, payload bits; sealed or unsealed; stale/misdirected pages, truncation, extension), applied before open or between operations, drive every reading entry point in child processes built with overflow checks; a panic (catch_unwind), abort or hang of the child is attributed to the run in flight.",
+            "Structure-aware corruption plans (header, XML numbers/attributes/structure incl. NaN/inf/extremes/DTD, section and packet headers, stream lengths, payload bits; sealed or unsealed; stale/misdirected pages, truncation, extension), applied before open or between operations, drive every reading entry point in child processes built with overflow checks; a panic (catch_unwind), abort or hang of the child is attributed to the run in flight. 16 (thorough: 64) run indices enumerate exhaustively the tree-level XML mutations of one rich file (every element dropped, every numeric leaf/attribute at each extreme text, every pair element dropped x numeric sibling extreme).",
             "'All byte strings' is explored by mutation of valid files located with refcodec's map; sampling only.",
             SIM + "seeded media/producer corruption at seeded instants x all entry points, panic/abort oracle in child processes", "DESIGN.md §5 C08"),
     "C09": (True, "exploration",
